@@ -102,7 +102,21 @@ type Instance struct {
 	k   int
 }
 
+type elemIndex struct {
+	ctx *Ctx
+	v   ssa.Value
+}
+
+// indexOfElem: the index term that selects a "current element" term (nil when unknown).
+func (tb *TermBuilder) indexOfElem(el *Term) *Term {
+	if e, ok := tb.elemIdx[el]; ok {
+		return tb.Term(e.ctx, e.v)
+	}
+	return nil
+}
+
 type TermBuilder struct {
+	elemIdx  map[*Term]elemIndex // "current element" term → the loop-variant index that selects it
 	w        *World
 	root     *Ctx
 	nctx     int
@@ -195,7 +209,12 @@ func (tb *TermBuilder) mk(op, name string, inst int, args ...*Term) *Term {
 	sb.WriteString(op)
 	if name != "" || inst != 0 {
 		sb.WriteByte('[')
-		sb.WriteString(name)
+		if i := strings.Index(name, ":"); op == "param" && i >= 0 {
+			// a parameter is identified by its position; the name is display only
+			sb.WriteString(name[:i])
+		} else {
+			sb.WriteString(name)
+		}
 		if inst != 0 {
 			sb.WriteByte('#')
 			sb.WriteString(strconv.Itoa(inst))
@@ -1108,27 +1127,37 @@ func (tb *TermBuilder) load(ctx *Ctx, ld *ssa.UnOp) *Term {
 	case *ssa.Global:
 		return tb.globalVal(a)
 	case *ssa.IndexAddr:
-		base := a.X
-		// element of a slice/array value
-		if _, isAlloc := base.(*ssa.Alloc); !isAlloc {
-			bt := tb.Term(ctx, base)
-			if c, ok := a.Index.(*ssa.Const); ok {
-				n, _ := constant.Int64Val(c.Value)
-				if bt.Op == "arr" && int(n) < len(bt.Args) {
-					return bt.Args[n]
-				}
-				return tb.mk("index", "", 0, bt, tb.constInt(n))
-			}
-			it := tb.Term(ctx, a.Index)
-			if it.contains(func(x *Term) bool { return x.Op == "phi" || x.Op == "cyc" }) {
-				// loop-variant index: "the current element"
-				return tb.mk("elem", "", tb.inst(ctx, ld, 0), bt)
-			}
-			return tb.mk("index", "", 0, bt, it)
+		if t := tb.elemLoad(ctx, a); t != nil {
+			return t
 		}
 	}
 	if t, ok := tb.localLoad(ctx, ld); ok {
 		return t
+	}
+	// field of a slice element read in place (s[i].F): the same value as the
+	// field of the loaded element, as long as the function never stores through
+	// an element address of that slice
+	if fa, ok := ld.X.(*ssa.FieldAddr); ok {
+		var path []string
+		var cur ssa.Value = fa
+		for {
+			f, ok := cur.(*ssa.FieldAddr)
+			if !ok {
+				break
+			}
+			path = append(path, fieldName(f.X.Type(), f.Field))
+			cur = f.X
+		}
+		if ia, ok := cur.(*ssa.IndexAddr); ok {
+			if _, isAlloc := ia.X.(*ssa.Alloc); !isAlloc && !storesThroughElem(ctx.fn, ia.X) {
+				if el := tb.elemLoad(ctx, ia); el != nil && (el.Op == "elem" || el.Op == "index") {
+					for i := len(path) - 1; i >= 0; i-- {
+						el = tb.field(el, path[i])
+					}
+					return el
+				}
+			}
+		}
 	}
 	// field of a package-level variable
 	if g, path, ok := globalPath(ld.X); ok {
@@ -1144,6 +1173,57 @@ func (tb *TermBuilder) load(ctx *Ctx, ld *ssa.UnOp) *Term {
 		return val
 	}
 	return tb.mk("load", "", tb.inst(ctx, ld, 0))
+}
+
+// elemLoad: the value at &base[i] for a slice/array value base (nil for a local array).
+// Two reads with the same base and the same index value are the same element.
+func (tb *TermBuilder) elemLoad(ctx *Ctx, a *ssa.IndexAddr) *Term {
+	if _, isAlloc := a.X.(*ssa.Alloc); isAlloc {
+		return nil
+	}
+	bt := tb.Term(ctx, a.X)
+	if c, ok := a.Index.(*ssa.Const); ok {
+		n, _ := constant.Int64Val(c.Value)
+		if bt.Op == "arr" && int(n) < len(bt.Args) {
+			return bt.Args[n]
+		}
+		return tb.mk("index", "", 0, bt, tb.constInt(n))
+	}
+	it := tb.Term(ctx, a.Index)
+	if it.contains(func(x *Term) bool { return x.Op == "phi" || x.Op == "cyc" }) {
+		// loop-variant index: "the current element"
+		el := tb.mk("elem", "", tb.inst(ctx, a.Index, 0), bt)
+		if tb.elemIdx == nil {
+			tb.elemIdx = map[*Term]elemIndex{}
+		}
+		tb.elemIdx[el] = elemIndex{ctx, a.Index}
+		return el
+	}
+	return tb.mk("index", "", 0, bt, it)
+}
+
+// storesThroughElem: fn writes through &base[i] (directly or to a field of it).
+func storesThroughElem(fn *ssa.Function, base ssa.Value) bool {
+	for _, b := range fn.Blocks {
+		for _, ins := range b.Instrs {
+			st, ok := ins.(*ssa.Store)
+			if !ok {
+				continue
+			}
+			var cur ssa.Value = st.Addr
+			for {
+				if f, ok := cur.(*ssa.FieldAddr); ok {
+					cur = f.X
+					continue
+				}
+				break
+			}
+			if ia, ok := cur.(*ssa.IndexAddr); ok && ia.X == base {
+				return true
+			}
+		}
+	}
+	return false
 }
 
 func globalPath(a ssa.Value) (*ssa.Global, []string, bool) {
